@@ -185,3 +185,64 @@ def run_tie(run, tier, seed, replay=None):
     run.sample(dict(stream="nested", design=designs[len(corp) + (n - len(corp)) // 2] if n > len(corp) else designs[0]))
     run.coverage["model2_tie"] = dict(designs=n, nested=len(nested), acyclic_nested=len(acyclic_nested), loops=len(loops),
                                       identical=sum(1 for i in range(n) if code[i] == 0))
+    run_bundle_tie(run, tier, seed)
+
+
+# ---------------------------------------------------------------------------------------------
+# bundles end to end: the pipeline model on the member-wise lowering of a bundle design (Corr/C01FB.v)
+# ---------------------------------------------------------------------------------------------
+BIMPORTS = None
+
+
+def run_bundle_tie(run, tier, seed):
+    """The modelling assumption of C01F_bundles_end_to_end_partial on the designs of the bundle streams (the corpus of
+    harness/vp/c01b.py and a prefix of its generated designs, same random keys): Coq computes elab_export_model2 on
+    `lower dot_name d` and compares the net labels of the model's package with the path-based labels of the written design;
+    chk_c01b compares the implementation's package with the same labels."""
+    from . import c01b
+    global BIMPORTS
+    BIMPORTS = (c01b.IMPORTS + "\nRequire Import Hdl21.Model.C01EElab Hdl21.Model.C01FElab Hdl21.Spec.C01FNets Hdl21.Corr.C01FB.")
+    quick = tier == "quick"
+    cs = c01b.corpus()
+    n = 260 if quick else 1500
+    designs, k = [], 0
+    while len(designs) < n:
+        r = core.rng(seed, "C01", "bdesigns", k)
+        k += 1
+        d = c01b.gen_bdesign(r, size=r.choice([1, 2, 2]) if quick else r.choice([1, 2, 3]))
+        if len(c01b.terminals(d)) > (110 if quick else 150):
+            continue
+        designs.append(d)
+    every = cs + designs
+    outs = core.run_worker_sharded("c01b", [dict(design=d) for d in every])
+    cases = [f"{{| fb_case := {c01b.c_case(d, o)};\n  fb_xinfo := {c01e.c_xinfo(d)} |}}" for d, o in zip(every, outs)]
+    bad = dict(core.coq_eval_cases("C01", "bundles_e2e", BIMPORTS, "c01fb_case", cases, "run_cases chk_c01fb", chunk=15, timeout=1500))
+    m = len(every)
+    count = lambda c: sum(1 for v in bad.values() if v == c)
+    run.stream("bundles-end-to-end", m, len({json.dumps(d) for d in every}),
+               corpus=len(cs), model_nets_equal_impl_and_spec=m - len(bad), lowered_design_outside_frag_ok2=count(8),
+               lowered_design_not_wf=count(9), rejected_by_impl=sum(1 for o in outs if o["pkg"] is None),
+               rule="every bundle design of the corpus and of a prefix of the bundle-designs stream; distinct by design",
+               compared="hypotheses of C01F_bundles_end_to_end_partial (names_ok, pairs_ok, orbits computed, on nodes of the design and closed; "
+                        "wf_design / frag_ok2 / xinfo_ok / terminals of the lowered design); net labels of elab_export_model2(lower d) on the mapped "
+                        "terminals against the path-based labels; implementation's package against the same labels (chk_c01b)")
+    if m - len(bad) < (200 if quick else 1000):
+        run.violation("C01:coverage:bundles-e2e", f"coverage target missed: only {m - len(bad)} of {m} bundle designs inside the hypotheses of the corollary",
+                      dict(kind="coverage"), found_input=False)
+    order = sorted((i for i, c in bad.items() if c not in (8, 9)), key=lambda i: len(json.dumps(every[i])))
+    v1 = [i for i in order if bad[i] in (1, 6)]
+    for i in v1[:2]:
+        what = "valid design rejected" if bad[i] == 6 else "exported package differs from the written design (net partition / leaf devices / flattened port names)"
+        run.violation("C01:bdesign:" + json.dumps(every[i], sort_keys=True), f"{what}: {json.dumps(outs[i]['err'])[:400]}",
+                      dict(kind="impl-violates-spec", stream="bundles-end-to-end", fragment="bundles", case=every[i], impl=outs[i], failing_cases=len(v1),
+                           reproducer="build the design with harness/impl/c01b.BBuilder, h.to_proto, compare nets"))
+    rest = [i for i in order if bad[i] not in (1, 6)]
+    for i in rest[:2]:
+        c = bad[i]
+        what = {2: "the pipeline model rejects the lowering of a bundle design although all hypotheses of the corollary hold (tie broken)",
+                4: "the model's package on the lowered design does not have the nets of the bundle design (contradicts C01F_bundles_end_to_end_partial)",
+                3: "a decidable hypothesis of the lowering lemma / of the corollary fails on a generated bundle design (harness or spec defect)"}.get(c, f"code {c}")
+        run.violation(f"C01:bundles-e2e:{c}:" + json.dumps(every[i], sort_keys=True), what,
+                      dict(kind="tie-broken" if c == 2 else "checker-inconsistency", code=c, stream="bundles-end-to-end", fragment="bundles",
+                           case=every[i], impl=outs[i], failing_cases=len(rest)), found_input=False)
+    run.coverage["bundles_e2e_tie"] = dict(designs=m, inside=m - len(bad), outside_frag_ok2=count(8), lowered_not_wf=count(9))
